@@ -118,20 +118,25 @@ def _raw_long(r):
     return r.text[2 + lvl:len(r.text) - 2 - lvl]
 
 
+KNOWN_TAGS = ('long_comment_level', 'spaced_label')
+
+
 def out_of_domain(src, ref, avoid=()):
-    """Reason why a REFLEX-valid text is outside the asserted domain, or None."""
+    """Reason why a REFLEX-valid text is outside the asserted domain, or None.  `avoid`: tags of open known findings
+    (the shapes they cover are left out, and counted, while the finding is open)."""
     if b'\r' in src.replace(b'\r\n', b''):
         return 'bare_cr'     # not in the property's line-end domain
-    for t in ref:
-        if t.kind == 'comment' and t.value:
-            # levelled long comments --[=[ ]=]: picotool's source states PICO-8 does not support them and
-            # no PICO-8 binary is available to decide; not asserted either way (DESIGN.md section 8)
-            return 'long_comment_level'
+    if 'long_comment_level' in avoid:
+        for t in ref:
+            if t.kind == 'comment' and t.value:
+                # levelled long comments --[=[ ]=] (known finding C07 levelled-long-comment)
+                return 'long_comment_level'
     if 'esc_z' in avoid and b'\\z' in src:
         return 'esc_z'
-    for t in ref:
-        if t.kind == 'label' and t.text != b'::' + t.value + b'::':
-            return 'spaced_label'    # ':: name ::' is not in the dialect picotool parses (labels are compact)
+    if 'spaced_label' in avoid:
+        for t in ref:
+            if t.kind == 'label' and t.text != b'::' + t.value + b'::':
+                return 'spaced_label'    # ':: name ::' (known finding C07 spaced-label)
     return None
 
 
